@@ -27,7 +27,7 @@ int __real_clock_gettime(clockid_t id, struct timespec* ts);
 int __wrap_clock_gettime(clockid_t id, struct timespec* ts) {
   if (id == CLOCK_MONOTONIC || id == CLOCK_MONOTONIC_COARSE) {
     ts->tv_sec = vclock_ms / 1000;
-    ts->tv_nsec = (vclock_ms % 1000) * 1000000;
+    ts->tv_nsec = (vclock_ms % 1000) * 1000000 + 400000;   /* x.4 ms: truncation and rounding differ */
     return 0;
   }
   return __real_clock_gettime(id, ts);
@@ -58,17 +58,19 @@ int __wrap_epoll_pwait(int epfd, struct epoll_event* ev, int max, int timeout, c
     end_run_ext();
     { extern void settle_ext(void); settle_ext(); }
     { extern void pass_ext(void); pass_ext(); }
+    { extern void poll_entry_ext(void); poll_entry_ext(); }
     int f = poll_flags();
     printf("w%d:%d%d%d%d ", timeout, (f >> 3) & 1, (f >> 2) & 1, (f >> 1) & 1, f & 1);
   }
   n = __real_epoll_pwait(epfd, ev, max, 0, ss);
-  if (n != 0) return n;
-  if (timeout == 0) return 0;
-  if (timeout > 0) { vclock_ms += (uint64_t) timeout; return 0; }
-  /* would block for ever: report it and break the block */
-  if (!quiet) printf("H ");
-  g_loop->stop_flag = 1;
-  return 0;
+  if (n == 0 && timeout > 0) vclock_ms += (uint64_t) timeout;
+  if (n == 0 && timeout < 0) {
+    /* would block for ever: report it and break the block */
+    if (!quiet) printf("H ");
+    g_loop->stop_flag = 1;
+  }
+  if (!quiet) { extern void poll_exit_ext(void); poll_exit_ext(); }
+  return n;
 }
 
 struct hnd {
@@ -108,6 +110,17 @@ int poll_flags(void) {
  * (re)started by the program from inside a timer callback must not fire before the next boundary, and no
  * timer fires twice between two boundaries ("a timer that becomes due during a pass waits for the next
  * iteration"). */
+/* "then due timers": loop->time is refreshed after the check and close callbacks of an iteration, so every
+ * timer that was armed before the last of those callbacks ended and is due by then fires in the timer phase
+ * of that same iteration.  t_mark is the clock at the last such moment (or at the end of the poll). */
+static uint64_t t_mark, last_now;
+static int mark_id, polls_in_run, cb_since_poll, arm_mark[MAXH];
+static void set_mark(void) { t_mark = vclock_ms; mark_id++; }
+static void chk_now(void) {
+  uint64_t n = uv_now(&loop);
+  if (n < last_now) printf("!nowdec%" PRIu64 ",%" PRIu64 " ", last_now, n);
+  last_now = n;
+}
 static int pass_id, cur_tag = -1;
 static int arm_pass[MAXH], fired_pass[MAXH];
 static int run_kind = -1;
@@ -140,6 +153,8 @@ static void on_cb(int tag, int id) {
     end_run();
   }
   printf("c%d,%d,%" PRIu64 " l%d ", tag, id, uv_now(&loop), uv_loop_alive(&loop) ? 1 : 0);
+  cb_since_poll = 1;
+  chk_now();
   if (tag == 0 && id >= 0 && id < MAXH) {
     if (arm_pass[id] == pass_id) printf("!samepass%d ", id);
     if (fired_pass[id] == pass_id) printf("!twice%d ", id);
@@ -161,6 +176,7 @@ static void on_cb(int tag, int id) {
     cur_tag = tag; do_ops(copy, 1); cur_tag = prev;
     free(copy);
   }
+  if (tag >= 3 && tag <= 6) set_mark();
 }
 
 static int idx(void* h) { return (int) (intptr_t) ((uv_handle_t*) h)->data; }
@@ -179,6 +195,19 @@ void close_cb(uv_handle_t* h) { H[idx(h)]->closed = 1; on_cb(6, idx(h)); }
 static void work_cb(uv_work_t* r) { (void) r; }
 void settle_ext(void) { settled_null = seen_null; seen_null = qn_null; }
 void pass_ext(void) { pass_id++; }
+static void chk_overdue(void) {
+  int j;
+  for (j = 0; j < nh; j++)
+    if (H[j]->kind == 't' && !H[j]->closing && uv_is_active(&H[j]->u.h) &&
+        H[j]->u.t.timeout <= t_mark && arm_mark[j] < mark_id)
+      printf("!overdue%d ", j);
+}
+void poll_entry_ext(void) {
+  /* a poll that follows callbacks closes an iteration whose timer phase has run */
+  if (polls_in_run > 0 && cb_since_poll) chk_overdue();
+  polls_in_run++; cb_since_poll = 0;
+}
+void poll_exit_ext(void) { set_mark(); }
 
 static void do_ops(char* ops, int in_cb) {
   char* save = NULL; char* tok;
@@ -201,13 +230,17 @@ static void do_ops(char* ops, int in_cb) {
     case 'S':
       if (sscanf(tok + 1, "%d,%d,%" SCNu64 ",%" SCNu64, &i, &c, &a, &b) == 4 && usable(i) && H[i]->kind == 't')
         { int rr = uv_timer_start(&H[i]->u.t, c ? timer_cb : NULL, a, b);
-          if (rr == 0 && i < MAXH) arm_pass[i] = (cur_tag == 0) ? pass_id : -1;
+          if (rr == 0 && i < MAXH) { arm_pass[i] = (cur_tag == 0) ? pass_id : -1; arm_mark[i] = mark_id; }
           printf("r%d ", rr); }
+      break;
+    case 'V':
+      /* uv_update_time() when the loop's time is current already: changes nothing, and uv_now() never decreases */
+      if (vclock_ms == uv_now(&loop)) { uv_update_time(&loop); chk_now(); }
       break;
     case 'G':
       if (sscanf(tok + 1, "%d", &i) == 1 && usable(i) && H[i]->kind == 't')
         { int rr = uv_timer_again(&H[i]->u.t);
-          if (rr == 0 && i < MAXH && uv_is_active(&H[i]->u.h)) arm_pass[i] = (cur_tag == 0) ? pass_id : -1;
+          if (rr == 0 && i < MAXH && uv_is_active(&H[i]->u.h)) { arm_pass[i] = (cur_tag == 0) ? pass_id : -1; arm_mark[i] = mark_id; }
           printf("r%d ", rr); }
       break;
     case 'P':
@@ -278,7 +311,9 @@ static void do_ops(char* ops, int in_cb) {
     case 'B': printf("b%d ", uv_backend_timeout(&loop)); break;
     case 'R':
       if (!in_cb && sscanf(tok + 1, "%d", &c) == 1 && ++pass_id && printf("g%d,%d ", c, uv_loop_alive(&loop) ? 1 : 0))
-        { int rr = uv_run(&loop, c == 0 ? UV_RUN_DEFAULT : c == 1 ? UV_RUN_ONCE : UV_RUN_NOWAIT); end_run(); settled_null = seen_null; printf("u%d ", rr ? 1 : 0); }
+        { polls_in_run = 0; cb_since_poll = 0; }
+      if (!in_cb && sscanf(tok + 1, "%d", &c) == 1)
+        { int rr = uv_run(&loop, c == 0 ? UV_RUN_DEFAULT : c == 1 ? UV_RUN_ONCE : UV_RUN_NOWAIT); end_run(); settled_null = seen_null; if (polls_in_run > 0) chk_overdue(); chk_now(); printf("u%d ", rr ? 1 : 0); }
       break;
     case 'Z':
       if (!in_cb) {
@@ -301,7 +336,7 @@ int main(void) {
     *p1++ = 0; p2 = strchr(p1, ';'); if (!p2) { printf("\n"); continue; }
     *p2++ = 0;
     sscanf(line, "%llu %d", &t0, &metrics);
-    vclock_ms = t0; quiet = 0; npolls = 0; run_kind = -1; pass_id = 1; cur_tag = -1; memset(arm_pass, 0xff, sizeof arm_pass); memset(fired_pass, 0xff, sizeof fired_pass); cbw_out = qn_null = seen_null = settled_null = 0; nh = nw = nbeh = cbcount = 0;
+    vclock_ms = t0; quiet = 0; npolls = 0; run_kind = -1; t_mark = 0; last_now = 0; mark_id = 1; polls_in_run = 0; cb_since_poll = 0; memset(arm_mark, 0, sizeof arm_mark); pass_id = 1; cur_tag = -1; memset(arm_pass, 0xff, sizeof arm_pass); memset(fired_pass, 0xff, sizeof fired_pass); cbw_out = qn_null = seen_null = settled_null = 0; nh = nw = nbeh = cbcount = 0;
     uv_loop_init(&loop);
     g_loop = &loop;
     if (metrics) uv_loop_configure(&loop, UV_METRICS_IDLE_TIME);
